@@ -2,7 +2,10 @@
 
 package sarama
 
-import "fmt"
+import (
+	"fmt"
+	"runtime/debug"
+)
 
 // In-package access for the C09/C10 format-layer harnesses (go/harness/cmd/c09fmt, c10fmt).
 // Added by -overlay; nothing is written to the repository.
@@ -120,10 +123,17 @@ func VerifWire2Encode(body interface{}) (raw []byte, prep int, off int, err erro
 }
 
 // VerifWire2Decode decodes buf into body exactly as the client does (the whole buffer must be consumed).
+// A panic is recovered and reported with the stack of the panicking goroutine.
 func VerifWire2Decode(body interface{}, buf []byte, version int16) (err error, panicked interface{}) {
+	err, panicked, _ = VerifWire2DecodeStack(body, buf, version)
+	return
+}
+
+func VerifWire2DecodeStack(body interface{}, buf []byte, version int16) (err error, panicked interface{}, stack string) {
 	defer func() {
 		if r := recover(); r != nil {
 			panicked = r
+			stack = string(debug.Stack())
 		}
 	}()
 	if buf == nil {
@@ -131,11 +141,11 @@ func VerifWire2Decode(body interface{}, buf []byte, version int16) (err error, p
 	}
 	switch d := body.(type) {
 	case versionedDecoder:
-		return versionedDecode(buf, d, version), nil
+		return versionedDecode(buf, d, version), nil, ""
 	case decoder:
-		return decode(buf, d), nil
+		return decode(buf, d), nil, ""
 	}
-	return fmt.Errorf("%T is not a decoder", body), nil
+	return fmt.Errorf("%T is not a decoder", body), nil, ""
 }
 
 // VerifWire2Mark is the position of a count / length field in an encoding.
